@@ -88,6 +88,12 @@ class CHECK(Check):
         self.tier, self.seed = tier, seed
         self.m = gsx.Model('mindsdb')
         self.fam = gsx.Families(self.m, 1)
+        # two-step process histories over the planner corpus of vf.histories (the second plan must still be well formed)
+        from vf import histories
+        self.hcorpus = histories.corpus(tier)
+        if tier == 'quick':
+            refs = histories.references(self.hcorpus)
+            self.hcorpus = [self.hcorpus[i] for i in histories.select_quick(self.hcorpus, refs)]
 
     def cases(self):
         out = []
@@ -121,7 +127,28 @@ class CHECK(Check):
                 out.append(('gsx', numbered, 'api'))
                 mixed = ' '.join(('int1' if i % 2 else 'pred') if t == 'ID' else m.lexeme[t] for i, t in enumerate(s))
                 out.append(('gsx', mixed, 'pred_default'))
+        for i in range(len(self.hcorpus)):
+            out.append(('hist', i, None))
         return out
+
+    def run_history(self, res, i):
+        from vf import histories
+        first = self.hcorpus[i]
+        for j, second in enumerate(self.hcorpus):
+            for reuse in (False, True):
+                planner = histories.new_planner() if reuse else None
+                histories.observe(first, planner)
+                obs, plan = histories.observe(second, planner)
+                res.count('history_plans')
+                if obs[0] == 'exc' and obs[1] not in ('PlanningException', 'NotImplementedError'):
+                    res.violation(f'internal-error-after-history|{obs[1]}', f'after planning {first!r} ({"same planner object" if reuse else "same process"}), planning {second!r} raised {obs[1]}: {obs[2]}')
+                elif plan is not None:
+                    inner = Result()
+                    self.scan(inner, histories.tree_of(second), plan, second, 'rich', 'hist')
+                    for sig, msg in inner.violations:
+                        res.violation(sig + '|after-history', f'after planning {first!r} ({"same planner object" if reuse else "same process"}): ' + msg)
+        res.key(('hist', i))
+        return res
 
     def kwargs(self, kind, cat):
         import copy
@@ -138,6 +165,8 @@ class CHECK(Check):
     def run(self, case):
         res = Result()
         kind, sql, cat = case
+        if kind == 'hist':
+            return self.run_history(res, sql)
         out = parsing.outcome(sql, 'mindsdb')
         if out.kind != 'ok' or not isinstance(out.value, PLANNABLE):
             res.count('not_plannable_input')
@@ -152,6 +181,11 @@ class CHECK(Check):
         except Exception as e:
             res.violation(f'internal-error|{exc_sig(e)}', f'plan_query({sql!r}, catalog={cat}) raised {type(e).__name__}: {str(e)[:150]}')
             return res
+        self.scan(res, tree, plan, sql, cat, kind)
+        return res
+
+    def scan(self, res, tree, plan, sql, cat, kind):
+        """well-formedness of one emitted plan"""
         if not isinstance(plan, QueryPlan):
             res.violation('returns-non-plan', f'{sql!r}: {plan!r}')
             return res
@@ -210,7 +244,7 @@ class CHECK(Check):
     def coverage(self, agg):
         return {'exhaustive': True, 'step_classes_seen': sorted(agg['cover'].get('step_class', ())),
                 'rule': 'C08 query model + predictor-join model (<= d non-default features, selected full products) + time-series join queries + '
-                        f'{len(DML)} DML/DDL/predictor statements + accepted GSX sentences rooted in plannable statements under naming schemes x catalogs; '
+                        f'{len(DML)} DML/DDL/predictor statements + accepted GSX sentences rooted in plannable statements under naming schemes x catalogs + all ordered pairs of a planner corpus as two-step histories (same process / same planner object); '
                         'distinct_nontrivial = distinct (step class sequence, input family) or error kinds'}
 
     def describe_case(self, case):
